@@ -111,7 +111,47 @@ def subspaces(tier):
     subs.append(('e:expected-diagnostics', list(xprogs(tier))))
     subs.append(('f:blocked-output-files', [{'k': 'b', 'blk': b, 'src': sk, 'opt': o} for b in range(len(BLOCK)) for sk in ('ok', 'warn', 'err', 'fatal')
                                             for o in ([], ['-Werror'], ['-x'])]))
+    subs.append(('g:diagnostics-before-the-first-line', [{'k': 'c', 'cpu': c, 'src': sk, 'opt': o} for c in CPUSPEC for sk in ('none', 'ok', 'warn', 'err')
+                                                          for o in ([], ['-Werror'], ['-x'], ['-L'])]))
     return subs
+
+
+# (g) a diagnostic raised while a pass is being set up (the default CPU of -cpu carries an argument the target does not know)
+# is a diagnostic like any other: it is counted, decides the exit status and keeps the code file away
+CPUSPEC = ['8080', 'atmega8', 'atmega8:codesegsize=0', 'atmega8:foo=1', 'atmega8:codesegsize=9', 'atmega8:codesegsize', 'z80:foo=1', '6809:x=1', '68000:', 'atmega8:foo=1:bar=2']
+
+
+def ev_cpuarg(case):
+    body = {'none': '', 'ok': '\tnop\n', 'warn': '\twarning "w"\n', 'err': '\tfoo bar\n'}[case['src']]
+    core.put('a.asm', body)
+    o = core.run('asl', ['-cpu', case['cpu']] + case['opt'] + ['a.asm'], timeout=10)
+    d = 'asl -cpu %s %s on %r' % (case['cpu'], ' '.join(case['opt']), body)
+    ck = core.crashkind(o)
+    if ck:
+        return core.R(False, ck, 'cpuarg/crash/' + ck, '%s on %s' % (ck, d))
+    txt = (o.out + o.err).decode('latin-1')
+    if 'PASS 1' not in txt:
+        # the command line itself was refused: nothing was assembled
+        if o.rc == 0 or os.path.isfile(os.path.join(core.workdir(), 'a.p')):
+            return core.R(False, 'refused', 'cpuarg/refused-but-ok', 'nothing assembled, exit status %s on %s' % (o.rc, d))
+        return core.R(True, 'c-refused', states=['c|refused'])
+    ne = len(re.findall(r'(?m)^> > > .*?: (?:error|fatal)', txt))
+    nw = len(re.findall(r'(?m)^> > > .*?: warning', txt))
+    m = re.search(r'(?m)^\s*(\d+) errors?\s*$', txt)
+    mw = re.search(r'(?m)^\s*(\d+) warnings?\s*$', txt)
+    werr = '-Werror' in case['opt']
+    if werr:
+        ne, nw = ne + nw, 0
+    want = 2 if ne else 0
+    have = os.path.isfile(os.path.join(core.workdir(), 'a.p'))
+    sig = 'cpuarg/%s/%%s' % ('arg' if ':' in case['cpu'] else 'plain')
+    if o.rc != want:
+        return core.R(False, 'rc', sig % ('rc-got%s' % o.rc), '%d errors reported, exit status %s on %s' % (ne, o.rc, d))
+    if have != (want == 0):
+        return core.R(False, 'codefile', sig % 'codefile', 'exit status %s, code file %s on %s' % (o.rc, have, d))
+    if not m or int(m.group(1)) != ne or (not werr and (not mw or int(mw.group(1)) != nw)):
+        return core.R(False, 'count', sig % 'count', 'summary says %s errors %s warnings, %d/%d emitted on %s' % (m and m.group(1), mw and mw.group(1), ne, nw, d))
+    return core.R(True, 'c-rc%d' % o.rc, nontrivial=ne > 0, states=['c|%d|%d' % (min(ne, 2), min(nw, 2))])
 
 
 # (f) an output file that cannot be created (its name is a directory) is a fatal error: status 3, no code file, no crash -
@@ -283,6 +323,8 @@ def evaluate(case):
         return ev_x(case)
     if case['k'] == 'b':
         return ev_blocked(case)
+    if case['k'] == 'c':
+        return ev_cpuarg(case)
     return ev_files(case)
 
 
